@@ -93,8 +93,9 @@ TEXT['C02'] = dict(
          '4-D and 3-D layout sets and the process-grid patterns >1/=1) and shown to leave bufferSize >= the first layout size and '
          '>= p padded blocks for every compatible pair - exactly the buffer precondition of the C01 transpose proofs; lemma '
          'block_fits_padded (each layout block fits into the p padded blocks of a transpose it takes part in) is proved.',
-    note=PROOF_NOTE + 'Grid accessors are covered by the bounded part and, where the operators use them, executed inside the C05 '
-         'wiring proofs; _makeConnectionMap is abstract in the constructor proof (returns "all connected"); the reverse direction of '
+    note=PROOF_NOTE + 'Grid.getCoordVals and getGlobalIndices are under contract (result = global axis restricted to the owned range / '
+         'local index plus start on the dimension the axis holds); getCoords, getGlobalIdxVals and the slice accessors are executed '
+         'inside the C05 wiring proofs and covered by the bounded part; _makeConnectionMap is abstract in the constructor proof (returns "all connected"); the reverse direction of '
          'a pair uses the same multiset of extents (by the equal local extents of equal dimensions, a precondition of C01). Found '
          'and fixed Grid.getEta (fix: 8880526).',
     technique='symbolic execution of the constructor per structural case, expression arrays for the numpy formula, z3 (div/mod)')
